@@ -450,9 +450,39 @@ def c13_monitor(case, frames):
 
 
 # ------------------------------------------------------------------ C03
+def abort_after_completion(case):
+    """Abort has no effect on a completed bar: the state the bar's goroutine reports after serving an Abort that arrives when
+    the bar is completed (triggered, not aborted, current = total) is the state before — in particular the drop flag, which
+    decides whether the bar is in the last frame and in the notifier's list"""
+    snap, pending = {}, {}
+    for seq, k, a in events(case):
+        if k == "CL_OP" and len(a) >= 2 and a[1] == "Abort":
+            b = bar(a[0])
+            st = snap.get(b)
+            if st is not None and st[3] == "1" and st[4] == "0" and st[0] == st[1]:
+                pending[b] = (seq, st, a[2] if len(a) > 2 else "?")
+        elif k == "CL_OP":
+            pending.pop(bar(a[0]), None) if a and a[0].startswith("b") else None
+        elif k == "BAR_OP":
+            b = bar(a[0])
+            now = tuple(a[1:7])      # current, total, refill, triggered, aborted, remove-on-complete
+            if b in pending:
+                seq0, st, drop = pending.pop(b)
+                if now != st:
+                    names = ("current", "total", "refill", "triggered", "aborted", "remove-on-complete")
+                    diff = ", ".join("%s %s -> %s" % (n, x, y) for n, x, y in zip(names, st, now) if x != y)
+                    return ("bar %d was completed when Abort(%s) was called (event %d); the call changed the bar all the same (event %d): %s"
+                            % (b, {"1": "true", "0": "false"}.get(drop, drop), seq0, seq, diff), "abort-after-completion-changes-bar")
+            snap[b] = now
+    return None
+
+
 def c03_monitor(case, frames):
     mode = case["cfg"][2]
     evs = events(case)
+    r = abort_after_completion(case)
+    if r:
+        return r
     wait_ret = None
     final = {}
     for seq, k, a in evs:
